@@ -90,6 +90,10 @@ def get_strategy_base():
                         cs = self.candles
                         c.ev('env_ind', self._sim_route, int(len(cs)), C.fnum(ta.ema(cs, period=9)) if len(cs) >= 2 else None,
                              jh_.get_config('env.data.warmup_candles_num', None))
+                        # the running metrics and trade list a strategy may base decisions on
+                        m = self.metrics
+                        c.ev('env_metrics', self._sim_route, None if not m else (int(m.get('total', -1)), C.fnum(m.get('net_profit')), C.fnum(m.get('win_rate')),
+                                                                                C.fnum(m.get('fee'))), len(self.trades))
                 except Exception as e:
                     c.ev('env', self._sim_route, 'raised', type(e).__name__)
             c.dispatch('hook', self, hook, extra)
@@ -490,10 +494,51 @@ def get_strategy_base():
             self._enter_hook('close')
             self._decl = {'sl': None, 'tp': None}
             self._decl_at = {'sl': None, 'tp': None}
+            pr = self._prog
+            if pr.get('p_hook_reentry', 0.0) > 0 and not pr.get('inert') and self._uu('close', 'reentry', 1.0) < pr['p_hook_reentry']:
+                self._hook_reentry()
             self._observe('on_close_position', str(order.id))
+
+        def _hook_reentry(self, hk='close'):
+            """a resting entry order submitted through the broker from inside the closing fill's hook (re-entry), i.e.
+            while the matching loop that produced the fill is still running"""
+            sp = self._c.spec
+            if int(store.app.time) >= sp['start_ts'] + sp['minutes'] * 60_000:
+                return      # the forced close at the end of the session
+            reg = self._c.scratch.get('registry')
+            if reg is not None and reg.in_liq:
+                return
+            price = float(self.price)
+            dk = 1 + int(self._uu(hk, 're_dk', 0.0) * max(1, self._prog['entry_dist']))
+            up = self._uu(hk, 're_up', 0.0) < 0.5
+            px = self._lat(price, dk if up else -dk)
+            if px <= 0 or px == price:
+                return
+            if self.exchange_type == 'spot':
+                budget = float(self.balance) * 0.1
+                buy = True
+            else:
+                budget = float(self.available_margin) * float(self.leverage) * 0.1
+                buy = self._uu(hk, 're_side', 0.0) < 0.5
+            q = self._round_qty(budget / max(px, price))
+            if q <= 0:
+                return
+            if buy:
+                self.broker.buy_at(q, px)
+            else:
+                self.broker.sell_at(q, px)
+            self._c.count('hook_reentry_orders' if hk == 'close' else 'orders_submitted_in_on_cancel')
 
         def on_cancel(self):
             self._enter_hook('oncancel')
+            # the framework has just dropped every declaration of the cancelled trade (Strategy._reset)
+            self._decl = {'sl': None, 'tp': None}
+            self._decl_at = {'sl': None, 'tp': None}
+            pr = self._prog
+            if pr.get('p_oncancel_order', 0.0) > 0 and not pr.get('inert') and self.position.is_close \
+                    and self._uu('oncancel', 'order', 1.0) < pr['p_oncancel_order']:
+                # a strategy that re-places an entry as soon as its previous entries have been cancelled
+                self._hook_reentry('oncancel')
             self._observe('on_cancel')
 
         def update_position(self):
@@ -686,6 +731,8 @@ def gen_program(st, exchange_type, profile=None):
         'p_refine_on_open': st.choice([0.0, 0.5], 'p_roo'),
         'p_inplace': st.choice([0.0, 0.0, 0.5], 'p_inplace'),
         'repeat_exits': st.chance(0.1, 'repeat_exits'),
+        'p_hook_reentry': st.choice([0.0, 0.0, 0.0, 0.4], 'p_hook_reentry'),
+        'p_oncancel_order': st.choice([0.0, 0.0, 0.0, 0.5], 'p_oncancel_order'),
         'ohlc_entries': st.chance(0.3, 'ohlc'),
         'data_gate': st.chance(0.3, 'dgate'),
     }
